@@ -93,6 +93,49 @@ func c06FamilyAt(idx int) string {
 	return "/" + strings.Join(parts[:k], "") + sep + "evil.test/p"
 }
 
+// path-element family: "/" + e1 + "/" + e2 + ... — http.Redirect runs path.Clean over everything before the first "?", the
+// fragment INCLUDED, so dot segments behind a "#" (or an escape, a ";") can pull an authority-looking element to the front of
+// the Location that is actually sent ("/a#/../\evil.test" -> "/\evil.test"). Every sequence of <=3 (quick) / <=4 (thorough).
+var c06Elements = []string{"a", "a#", "#", "#a", "..", ".", "\\evil.test", "", "evil.test", "a?", "%23", "a;", "\t", "..#", "a%23", "\\"}
+
+func c06ElemCount(maxEl int) int { return c06CountUpTo(len(c06Elements), maxEl) }
+
+func c06ElemAt(idx int) string {
+	n := len(c06Elements)
+	k, p := 1, n
+	for idx >= p {
+		idx -= p
+		p *= n
+		k++
+	}
+	var parts [8]string
+	for j := k - 1; j >= 0; j-- {
+		parts[j] = c06Elements[idx%n]
+		idx /= n
+	}
+	return "/" + strings.Join(parts[:k], "/")
+}
+
+// targeted composition of the same idea: lead + delimiter + climb + authority-smuggling tail
+var (
+	c06TLeads  = []string{"/a", "/", "/a/b", "/a/"}
+	c06TDelims = []string{"#", "?", "%23", ";", "#?", "?#", "&", "#a", "%3f"}
+	c06TClimbs = []string{"", "/..", "/../..", "/.", "/./..", "/x/../..", "/../../.."}
+	c06TTails  = []string{"//evil.test", "/\\evil.test", "/\t/evil.test", "\\/evil.test", "/evil.test", "/%2f/evil.test", "/\\evil.test/..", "//evil.test/p?q#r"}
+)
+
+func c06TargetCount() int { return len(c06TLeads) * len(c06TDelims) * len(c06TClimbs) * len(c06TTails) }
+
+func c06TargetAt(idx int) string {
+	t := c06TTails[idx%len(c06TTails)]
+	idx /= len(c06TTails)
+	c := c06TClimbs[idx%len(c06TClimbs)]
+	idx /= len(c06TClimbs)
+	d := c06TDelims[idx%len(c06TDelims)]
+	idx /= len(c06TDelims)
+	return c06TLeads[idx%len(c06TLeads)] + d + c + t
+}
+
 func c06Mix(x uint64) uint64 {
 	x += 0x9e3779b97f4a7c15
 	x = (x ^ (x >> 30)) * 0xbf58476d1ce4e5b9
